@@ -1,0 +1,30 @@
+//go:build verif
+
+package crdt
+
+// Accessors used only by the out-of-tree verification harness (/verif); compiled with -tags verif.
+
+// VerifValue builds a value with the given add / remove times and payload.
+func VerifValue(add, del int64, payload []byte) Value {
+	v := newValue()
+	v.setAddTime(add)
+	v.setDelTime(del)
+	v.setValue(payload)
+	return v
+}
+
+// VerifNewVolatile builds a volatile set holding the given items.
+func VerifNewVolatile(items map[string]Value) *Volatile {
+	return newVolatileWith(items)
+}
+
+// VerifItems returns a deep copy of the items of the set.
+func (s *Volatile) VerifItems() map[string]Value {
+	s.lock.Lock()
+	defer s.lock.Unlock()
+	out := make(map[string]Value, len(s.data))
+	for k, v := range s.data {
+		out[k] = append(Value{}, v...)
+	}
+	return out
+}
